@@ -270,6 +270,22 @@ def run(ctx):
                      f"`return {obj}` is not guarded by {obj}.create_time() <= the "
                      f"caller's creation time: a younger process that recycled the "
                      f"parent's PID would be returned")
+    # every query on the freshly built parent object sits in the same protection
+    pnames = {dotted(st.targets[0]) for st in ast.walk(pa.node) if isinstance(st, ast.Assign)
+              and st.value in ctors}
+    for c in calls_in(pa.node):
+        if isinstance(c.func, ast.Attribute) and dotted(c.func.value) in pnames:
+            prot = any(handler_catches(h, ["NoSuchProcess"])
+                       for t in enclosing_trys(pa.node, c) for h in t.handlers)
+            key = f"parent:query-protected:{norm_stmt(c)}"
+            if prot:
+                ctx.ok("C05.R4", key, sample=f"{norm_stmt(c)} under except NoSuchProcess")
+            else:
+                ctx.fail("C05.R4", key, pa.file, c.lineno, pa.qual,
+                         f"`{norm_stmt(c)}` queries the parent outside the NoSuchProcess "
+                         f"protection: a parent vanishing right after construction makes "
+                         f"parent() raise NoSuchProcess carrying the PARENT's pid "
+                         f"instead of returning None")
     for c in ctors:
         trys = enclosing_trys(pa.node, c)
         good = False
